@@ -2,6 +2,6 @@
     and ExtrOcamlString (bool, option, unit, prod, list, sumbool, sumor -> OCaml's own;
     ascii -> char, string -> char list). nat stays the extracted inductive. *)
 From Coq Require Import ExtrOcamlBasic ExtrOcamlString.
-From Spil Require Import Base.Tree Conf.Conf Driver.Dispatch.
+From Spil Require Import Base.Tree Conf.Conf Conf.Routing Driver.Dispatch Driver.DispatchFs.
 Extraction Language OCaml.
-Separate Extraction Dispatch.run Conf.load_tree Tree.tree.
+Separate Extraction DispatchFs.run_fs Dispatch.run Conf.load_tree Routing.parse_routing Tree.tree.
